@@ -27,7 +27,7 @@ def record_phase(ctx, tag, exe, args, props, levels=(1, 2)):
 
 def run(ctx):
     props = {ctx.pid}
-    exe = build(ctx, "drv_sort", "drv_sort.c", LIB, flags=REL_FLAGS + ["-Wl,--wrap=rand"])
+    exe = build(ctx, "drv_sort", "drv_sort.c", LIB, flags=REL_FLAGS + ["-Wl,--wrap=rand,--wrap=malloc,--wrap=realloc,--wrap=free"])
     ml = 5 if ctx.quick else 6
     cfg = f"CONSTANTS\n  MaxLen = {ml}\n  Algos = {{0,1,2,3,7}}\nSPECIFICATION Spec\nINVARIANT Safe\nINVARIANT Done\nINVARIANT Probes\nCHECK_DEADLOCK FALSE\n"
     l0(ctx, f"sort{ml}", "Sort", "", cfg)
